@@ -117,6 +117,17 @@ pub fn run(ctx: &Ctx) -> i32 {
             let exp = mask >> (3 + i) & 1 == 1;
             match catch(|| (e.has_type_envelope(txt[i]), e.check_type_envelope(txt[i]).is_ok())) { Ok((a, b)) => if a != exp || b != exp { acc.viol(format!("C19|types|text|expected-{exp}"), "text type check disagrees", format!("types/mask{mask}/txt{i}"), json!({"envelope": e.format_flat()})) }, Err(p) => acc.viol(format!("C19|types|panic|{}", p.loc), p.msg.clone(), format!("types/mask{mask}/txt{i}"), json!({})) }
         }
+        // types are 'isA' assertions compared by digest: a type whose object was elided afterwards is still reported
+        for i in 0..2 { if mask >> (3 + i) & 1 == 1 {
+            acc.inc("type_queries");
+            let el = e.elide_removing_target(&Envelope::new(txt[i]));
+            if let Ok(false) = catch(|| el.has_type_envelope(txt[i])) { acc.viol("C19|types|text|elided-type-object-not-reported", "a type that was added is no longer reported once its object is elided (types compare by digest)", format!("types/mask{mask}/txt{i}/elided"), json!({"envelope": el.format_flat()})) }
+        } }
+        for i in 0..3 { if mask >> i & 1 == 1 {
+            acc.inc("type_queries");
+            let el = e.elide_removing_target(&Envelope::new(kvt[i].clone()));
+            if let Ok((false, _)) | Ok((_, false)) = catch(|| (el.has_type(&kvt[i]), el.check_type(&kvt[i]).is_ok())) { acc.viol("C19|types|known-value|elided-type-object-not-reported", "a known-value type that was added is no longer reported once its object is elided (types compare by digest)", format!("types/mask{mask}/kv{i}/elided"), json!({"envelope": el.format_flat()})) }
+        } }
         acc.inc("type_queries");
         if let Ok(false) = catch(|| !e.has_type_envelope("never-added") && !e.has_type(&known_values::IS_A)) { acc.viol("C19|types|absent|expected-false", "a type that was never added is reported", format!("types/mask{mask}/absent"), json!({})) }
         let n = mask.count_ones();
